@@ -306,6 +306,12 @@ fn rejects(ctx: &mut Ctx, what: &str, args: Vec<String>, dir: &std::path::Path) 
 pub fn c19(ctx: &mut Ctx, tier: &str, r: &mut Rng, js: &[Value], _reqs: &[String], replay_only: bool) {
     let dir = scratch();
     for (k, v) in js.iter().enumerate() {
+        if v.get("kind").and_then(|x| x.as_str()) == Some("cli-invalid") {
+            if let (Some(what), Some(args)) = (v.get("what").and_then(|x| x.as_str()), v.get("args").and_then(|x| x.as_str())) {
+                rejects(ctx, what, args.split(' ').map(|t| t.to_string()).collect(), &dir);
+            }
+            continue;
+        }
         if let Some(c) = Cli::from_json(v) {
             let prev = v.get("reused_paths_of").and_then(Cli::from_json);
             one(ctx, &c, &dir, 9000 + k, prev.as_ref());
